@@ -183,15 +183,18 @@ func (n *vNet) vThoroughFaults(maxPos int) {
 	}
 }
 
+// vReadAll reads, through the public ReadSCTP, every message that is readable now (a read
+// that would have to wait is not started).
 func vReadAll(s *Stream, buf []byte) (msgs [][]byte, ppis []PayloadProtocolIdentifier) {
-	for {
-		n, ppi, err := s.reassemblyQueue.read(buf)
+	for s.reassemblyQueue.isReadable() {
+		n, ppi, err := s.ReadSCTP(buf)
 		if err != nil {
 			return
 		}
 		msgs = append(msgs, append([]byte{}, buf[:n]...))
 		ppis = append(ppis, ppi)
 	}
+	return
 }
 
 // C02.L1 / C01: reliable ordered transfer of 1..2 messages (1..2 fragments each, symbolic
@@ -358,8 +361,8 @@ func vh_C02_L2_zero_window() {
 	var got []byte
 	buf := make([]byte, 4)
 	for round := 0; round < 6 && len(got) < 3; round++ {
-		for {
-			n, _, rerr := bs.reassemblyQueue.read(buf)
+		for bs.reassemblyQueue.isReadable() {
+			n, _, rerr := bs.ReadSCTP(buf)
 			if rerr != nil {
 				break
 			}
@@ -368,8 +371,8 @@ func vh_C02_L2_zero_window() {
 		}
 		net.settle(12, 3)
 	}
-	for {
-		n, _, rerr := bs.reassemblyQueue.read(buf)
+	for bs.reassemblyQueue.isReadable() {
+		n, _, rerr := bs.ReadSCTP(buf)
 		if rerr != nil {
 			break
 		}
@@ -530,3 +533,7 @@ func vh_C02_L10_blocked_writers_are_not_left_behind() {
 func vh_C02_L10_handshake_result_is_not_dropped() {
 	vh_C04_L7_handshake_result_waits_for_the_connect_call()
 }
+
+// C02.L11: the duplicate filter tracks exactly what was received, also across the 2^32 wrap
+// (= C05 bmc_push): a receiver that loses track there stops the transfer for good.
+func vh_C02_L11_duplicate_filter_exact_across_the_wrap() { vh_C05_bmc_push() }
